@@ -148,6 +148,31 @@ def svd_contract(M, U, s, VT, tag, full_U=False, full_V=False, exact=True):
             c.assume("ge", so[l].p, f"{tag}: s >= 0")
 
 
+def _phase_freedom(c, M, U2, s1, V2, full):
+    """complex singular vectors are unique only up to a unit complex phase per mode, and xeofs' sign convention removes
+    only a factor +-1: the factors of a related complex matrix carry a fresh phase tau_l (|tau_l| = 1) per mode.
+    Witness value of tau_l: from LAPACK's actual factors of the new matrix."""
+    Uo, Vo = obj(U2).copy(), obj(V2).copy()
+    k = obj(s1).shape[0]
+    M0 = witness_or_none(M)
+    res0 = _safe(np.linalg.svd, M0, full_matrices=bool(full)) if M0 is not None else None
+    V2w = witness_or_none(V2)
+    for l in range(min(k, Vo.shape[0], Uo.shape[1])):
+        tv = None
+        if res0 is not None and V2w is not None:
+            ip = np.vdot(V2w[l, :], res0[2][l, :])  # <old, new>
+            if abs(ip) > 1e-12:
+                tv = ip / abs(ip)
+        tau = fresh_complex(f"tau{len(c.vars)}", "stub", tv, "phase freedom of complex singular vectors")
+        c.assume("eq", ((tau * tau.conjugate()).real - 1).p, "phase: |tau| = 1")
+        for j in range(Vo.shape[1]):
+            Vo[l, j] = Vo[l, j] * tau
+        for i in range(Uo.shape[0]):
+            Uo[i, l] = Uo[i, l] * tau.conjugate()
+    c.notes.append("complex SVD of a related matrix: per-mode phase modelled as a fresh unit complex number")
+    return SymArray(Uo, C128), SymArray(Vo, C128)
+
+
 def _svd_related(c, cache, M, k_keep, full, routine_name):
     """equivariance of the SVD (textbook linear algebra, stated in the evidence): if the matrix is a row/column
     permutation of, or a scalar multiple (by one symbolic variable) of, a matrix decomposed before, the factors
@@ -173,14 +198,20 @@ def _svd_related(c, cache, M, k_keep, full, routine_name):
             perm = [colsig_old.index(cs) for cs in colsig_new]  # new col j == old col perm[j]
             c.stub_log.append({"stub": routine_name, "shape": [n, p], "k": k_keep, "related": f"column permutation {perm}"})
             c.notes.append("SVD equivariance used: column permutation of an earlier input")
-            return U1.copy(), s1.copy(), SymArray(obj(V1)[:, perm].copy(), reported_dtype(V1))
+            U2, V2 = U1.copy(), SymArray(obj(V1)[:, perm].copy(), reported_dtype(V1))
+            if reported_dtype(M).kind == "c":
+                U2, V2 = _phase_freedom(c, M, U2, s1, V2, full)
+            return U2, s1.copy(), V2
         rowsig_old = [tuple(old[i, :]) for i in range(n)]
         rowsig_new = [tuple(keys[i, :]) for i in range(n)]
         if sorted(map(repr, rowsig_old)) == sorted(map(repr, rowsig_new)) and len(set(map(repr, rowsig_old))) == n:
             perm = [rowsig_old.index(rs) for rs in rowsig_new]
             c.stub_log.append({"stub": routine_name, "shape": [n, p], "k": k_keep, "related": f"row permutation {perm}"})
             c.notes.append("SVD equivariance used: row permutation of an earlier input")
-            return SymArray(obj(U1)[perm, :].copy(), reported_dtype(U1)), s1.copy(), V1.copy()
+            U2, V2 = SymArray(obj(U1)[perm, :].copy(), reported_dtype(U1)), V1.copy()
+            if reported_dtype(M).kind == "c":
+                U2, V2 = _phase_freedom(c, M, U2, s1, V2, full)
+            return U2, s1.copy(), V2
     # scalar multiple by one fresh variable
     newvars = set()
     for v in Mo.flat:
@@ -558,6 +589,17 @@ def promax_stub(X, power=1, max_iter=1000, rtol=1e-8, compute=True):
     pkey = (_key(X), power)
     if pkey in pcache:
         return tuple(x.copy() for x in pcache[pkey])
+    # the rotation matrix found for a row-permuted loading matrix is the same (the Varimax / Promax criteria
+    # are sums over rows): reuse it so that both fits of a metamorphic pair share R
+    rows_new = [tuple(v.p.key() if isinstance(v, Sym) else repr(v) for v in Xo[i, :]) for i in range(p)]
+    for (k1, pw1), (Xr1, R1, phi1) in list(pcache.items()):
+        if pw1 != power or k1[0] != Xo.shape:
+            continue
+        flat = list(k1[1])
+        rows_old = [tuple(flat[i * m:(i + 1) * m]) for i in range(p)]
+        if sorted(map(repr, rows_old)) == sorted(map(repr, rows_new)) and len(set(map(repr, rows_old))) == p:
+            c.notes.append("promax equivariance used: row permutation of an earlier loading matrix")
+            return X @ R1, R1.copy(), (phi1.copy() if hasattr(phi1, "copy") else phi1)
     idn = len(pcache)
     R = sym_array((m, m), f"R{idn}", cplx, None if R0 is None else np.asarray(R0), kind="stub")
     Ro = obj(R)
@@ -635,18 +677,22 @@ def hilbert_stub(y, N=None, axis=-1):
     if not isinstance(y, SymArray):
         return real_hilbert(y, N=N, axis=axis)
     c = cur()
+    hcache = c.caches.setdefault("hilbert", {})
+    hkey = (_key(y), axis)
+    if hkey in hcache:
+        return hcache[hkey].copy()
     y0 = witness_or_none(y)
     h0 = _safe(real_hilbert, y0, N=N, axis=axis) if y0 is not None else None
     if h0 is None:
         c.on_witness = False
-    idn = len(c.caches.setdefault("hilbert", {}))
-    c.caches["hilbert"][idn] = True
+    idn = len(hcache)
     yo = obj(y)
     out = np.empty(yo.shape, dtype=object)
     for idx in np.ndindex(*yo.shape):
         im = c.new_var(f"hil{idn}" + "".join(f"_{i}" for i in idx), "stub", None if h0 is None else float(np.imag(h0[idx])), "imaginary part of the analytic signal")
         out[idx] = Sym(Sym.of(yo[idx]).p + Poly.I() * im)
     c.stub_log.append({"stub": "scipy.signal.hilbert", "shape": list(yo.shape)})
+    hcache[hkey] = SymArray(out.copy(), C128)
     return SymArray(out, C128)
 
 # ---------------------------------------------------------------------------------------
